@@ -24,7 +24,7 @@ P == {Fn("true", 0), Fn("false", 0), Fn("even", 0), Fn("ltc", 1), Fn("ltc", 2), 
 A == {Fn("add", 0), Fn("cnt", 0), Fn("max", 0), Fn("min", 0), Fn("last", 0), Fn("failAdd", 1),
       Fn("failAdd", 2), Fn("failAdd", 3)}
 P2 == {Fn("le", 0), Fn("lt", 0), Fn("true", 0)}
-ST == {Fn("add2", 0), Fn("swap", 0), Fn("fst2", 0)}
+ST == {Fn("add2", 0), Fn("swap", 0), Fn("fst2", 0), Fn("failAdd2", 2), Fn("failAdd2", 0)}
 
 ASSUME \A f \in U, v \in IVals : PrintT(<<"FN", "u", f.n, f.c, v, Apply(f, v)>>)
 ASSUME \A f \in UP, v \in Pairs : PrintT(<<"FN", "u", f.n, f.c, v, Apply(f, v)>>)
